@@ -16,7 +16,7 @@ RULE = ("cases = a base object (term, list, contract, compound contract) on smal
         "non-trivial = the base has >= 1 term and at least one derived object is an edit (not only copies); distinct = SHA-1 of the case")
 ASSUMPTIONS = ["permutations of inputs/outputs/terms are checked for coherence only (eq => equal hash, symmetry), not for a particular answer"]
 
-EDITS_CONTRACT = ["copy", "copy", "replace-input", "replace-output", "add-output", "coef", "const-a", "const-g", "drop-g", "perm-inputs",
+EDITS_CONTRACT = ["copy", "copy", "inplace-simplify", "replace-input", "replace-output", "add-output", "coef", "const-a", "const-g", "drop-g", "perm-inputs",
                   "perm-outputs", "perm-terms", "roundtrip-dict", "roundtrip-str", "neg-zero", "var-order"]
 EDITS_TERMS = ["copy", "coef", "const", "neg-zero", "var-order", "parsed", "perm-terms", "drop-term"]
 
@@ -172,6 +172,14 @@ def run_case(case):
                 if e == "copy" and kind == "contract":
                     objs.append(base.copy())
                     expect.append(False)
+                elif e == "inplace-simplify":
+                    # built without simplification, hashed, then simplified in place: must equal (and hash like) the
+                    # contract built with the default simplification when the guarantees come out the same
+                    o = env.C(case["base"], False)
+                    hash(o)
+                    o.simplify()
+                    objs.append(o)
+                    expect.append(None)
                 elif e == "roundtrip-dict":
                     objs.append(env.PolyhedralIoContract.from_dict(base.to_machine_dict()))
                     expect.append(False)
